@@ -25,6 +25,7 @@ const vNV = 4
 type vClient struct {
 	couchbase.Client
 	opens      []uint16
+	openAt     []int64 // virtual instant of each stream request
 	opensAfter int // stream requests made after close() returned
 	closes     []uint16
 	dcpClosed  int
@@ -49,6 +50,7 @@ func (c *vClient) GetFailOverLogs(uint16) ([]gocbcore.FailoverEntry, error) {
 }
 func (c *vClient) OpenStream(vbID uint16, _ map[uint32]string, _ *models.Offset, obs couchbase.Observer) error {
 	c.opens = append(c.opens, vbID)
+	c.openAt = append(c.openAt, nowNs())
 	if c.shutdown {
 		c.opensAfter++
 	}
@@ -378,13 +380,16 @@ func stub__gocbcore_Agent_WaitForConfigSnapshot(agent *gocbcore.Agent, deadline 
 	return vNoOp{}, nil
 }
 
+// vPersisted is what every copy reports as persisted.
+var vPersisted = ^gocbcore.SeqNo(0) >> 1
+
 func stub__gocbcore_Agent_ObserveVb(agent *gocbcore.Agent, opts gocbcore.ObserveVbOptions, cb gocbcore.ObserveVbCallback) (gocbcore.PendingOp, error) {
 	vObserveCalls++
 	if vShutdown {
 		vObserveAfterClose++
 	}
 	// the reply arrives inline: what is explored here is Stop against the poller, not reply timing (that is C07/C20)
-	cb(&gocbcore.ObserveVbResult{VbID: opts.VbID, VbUUID: 1, PersistSeqNo: ^gocbcore.SeqNo(0) >> 1}, nil)
+	cb(&gocbcore.ObserveVbResult{VbID: opts.VbID, VbUUID: 1, PersistSeqNo: vPersisted}, nil)
 	return vNoOp{}, nil
 }
 
@@ -401,10 +406,22 @@ func (c *vClient) GetAgent() *gocbcore.Agent { return nil }
 // H_C13_mitigation: Close() with rollback mitigation enabled: at once after
 // start-up (the poller goroutine may not have started yet), between polls,
 // and while observe replies are outstanding.
-func H_C13_mitigation() {
+func H_C13_mitigation() { vC13Mitigation(false) }
+
+// H_C13_parked: Close() while vBucket 0's delivering goroutine waits at the
+// persistence gate. Quick tier: one schedule per Close() instant (the
+// close-vs-gate interleavings are C07_gate's subject); thorough tier: all
+// orders at blocking points during Close() for the 3 s instant.
+func H_C13_parked() { vC13Mitigation(true) }
+
+func vC13Mitigation(parked bool) {
 	setMerge(true)
 	setPreempt(0)
 	vObserveCalls, vObserveAfterClose, vShutdown = 0, 0, false
+	vPersisted = ^gocbcore.SeqNo(0) >> 1
+	if parked {
+		vPersisted = 5
+	}
 	w := &vWorld{cl: &vClient{observers: map[uint16]couchbase.Observer{}}, st: &vStore{docs: map[uint16]*models.CheckpointDocument{}},
 		co: &vConsumer{}, disc: &vDiscovery{member: 1}, cfg: &config.Dcp{}}
 	cfg := w.cfg
@@ -427,13 +444,43 @@ func H_C13_mitigation() {
 	freezeSchedule()
 	st.Open()
 	thawSchedule()
-	time.Sleep([]time.Duration{0, 3 * time.Second, 4 * time.Second}[choose("when", 3)])
-	w.d.close()
+	deliveryReturned := false
+	if parked {
+		// vBucket 0 is mid-delivery of an event above the persisted seqNo: its
+		// delivering goroutine (gocbcore's read loop) waits at the persistence gate
+		spawnEnv(func() {
+			w.deliver(0, 10)
+			deliveryReturned = true
+		})
+	}
+	consumedBefore := 0
+	if parked {
+		// the polls of the parked delivery before Close() are not the subject: one schedule for them
+		freezeSchedule()
+		if tierThorough() {
+			time.Sleep(3 * time.Second)
+			thawSchedule()
+		} else {
+			// Close() before the first poll, between polls, at a poll instant, at a report round
+			time.Sleep([]time.Duration{0, 3 * time.Second, 3200 * time.Millisecond, 4 * time.Second}[choose("when", 4)])
+		}
+		consumedBefore = len(w.co.events)
+		w.d.close()
+		thawSchedule()
+	} else {
+		time.Sleep([]time.Duration{0, 3 * time.Second, 4 * time.Second}[choose("when", 3)])
+		w.d.close()
+	}
 	cover("closed-with-mitigation")
 	vShutdown = true
 	w.cl.shutdown, w.st.shutdown, w.co.shutdown = true, true, true
-	setHorizon(nowNs() + int64(time.Minute))
+	setHorizon(nowNs() + int64(10*time.Second))
 	quiesce()
+	if parked {
+		cover("closed-with-an-event-parked")
+		assert(deliveryReturned, "the delivery waiting at the persistence gate is released by Close() (no goroutine keeps polling)")
+		assert(len(w.co.events) == consumedBefore, "the released event is not delivered after Close()")
+	}
 	assert(vObserveAfterClose == 0, "rollback-mitigation polling has stopped when Close() returns")
 	assert(len(w.cl.closes) == 2 && w.cl.dcpClosed == 1, "streams and connections closed")
 }
